@@ -35,7 +35,11 @@ ASSUMPTIONS = [
   "green may be #00FF00 or #008000; JC = 0: alignment not judged; cumulative members may share one paragraph or be separate",
   "vertical position: only displayAlign in {before, after}, region inside the safe area when VP..VP+rows-1 fits the documented row count, and strict vertical order of anchors for equal-shape subtitles with the same displayAlign; no exact coordinates, no double-height geometry",
   "an unused-space code inside a non-final extension block: either per-block truncation or truncation after concatenation accepted",
-  "extension blocks whose header differs from the first block, invalid time-code labels, TCO < TCI, unknown DFC/CCT: not judged",
+  "extension blocks whose CS/TCI/TCO differ from the first block, invalid time-code labels, TCO < TCI, unknown DFC/CCT: not judged; differing VP/JC inside a chain: layout not judged",
+  "observed text is compared raw and, for CCT 00 when that fails, after NFC normalisation (a decomposed rendering of a diacritic pair is accepted)",
+  "mech keys carry context tags naming irregular input features a violation may derive from: :cs-irregular (file has a CS sequence other than 01 02* 03), "
+  ":cum-after-dropped (an earlier member of a cumulative set is dropped by the programme start), :inner-filler (an unused-space code is followed by text), "
+  ":mnr-invalid (max_row_count=MNR with a non-numeric GSI MNR), :diacritic-before-space (ISO 6937 diacritic followed by 20h); crash:<Type>:<site> keys belong mainly to C18",
 ]
 REQUIRED = ["files", "corpus:files", "table:files", "probe:isd", "cmp:chars", "cmp:attrs", "cmp:align", "cmp:region", "cmp:order-pairs",
             "cmp:sigtimes", "feat:ext-chain", "feat:cumulative", "feat:comment", "feat:userdata", "feat:dropped-before-start",
@@ -366,7 +370,11 @@ class FileCheck:
     low = 1 if self.rf.teletext else 0
     return low <= s.vp and s.vp + self.max_rows(s) - 1 <= self.rows_cfg
 
-  def v(self, mech, what, sub=None):
+  def v(self, mech, what, sub=None, key=None):
+    """Records a violation; appends context tags that name irregular input features the mechanism may derive from."""
+    subs = [sub] if sub is not None else []
+    if key:
+      subs = [self.rf.subs[i] for i in key]
     # file-level contexts (ttconv appends such subtitles to an earlier paragraph, which also changes that paragraph)
     if any(s.cs_irregular for s in self.rf.subs):
       mech += ":cs-irregular"
@@ -374,9 +382,10 @@ class FileCheck:
       mech += ":cum-after-dropped"
     if not self.rf.teletext and self.cfg.get("max_row_count") == "MNR" and self.rf.mnr() is None:
       mech += ":mnr-invalid"
-    if sub is not None and sub.inner_filler:
+    if any(s.inner_filler for s in subs):
       mech += ":inner-filler"
-    if sub is not None and mech.startswith(("text:", "paragraph-mismatch")) and any(fl["diacritic_space"] for _, fl in sub.readings):
+    if mech.startswith(("text:", "paragraph-mismatch", "space-mismatch", "unexpected-content")) and \
+       any(fl["diacritic_space"] for s in subs for _, fl in s.readings):
       mech += ":diacritic-before-space"
     self.viol.append((mech, what))
 
@@ -500,7 +509,7 @@ def check_with_interp(fc: FileCheck, doc, interp, sig_set):
       if res["extra"]:
         # something else is displayed instead: a content difference, not a timing one
         fc.v("paragraph-mismatch", f"t={t}: expected {_desc(fc, key)} rows {[_expected_text(fc, (i,)) for i in key]}; "
-             f"displayed instead: {[o.text for o in res['extra']]}", subs[key[0]])
+             f"displayed instead: {[o.text for o in res['extra']]}", key=key)
         continue
       for i in key:
         found[i].setdefault("any", []).append((t, False))
@@ -508,8 +517,7 @@ def check_with_interp(fc: FileCheck, doc, interp, sig_set):
       for i in key:
         found[i].setdefault("any", []).append((t, True))
     for mech, what, key in res["viol"]:
-      sub = subs[key[0]] if key else None
-      fc.v(mech, f"t={t} ({float(t):.6f} s): " + what, sub)
+      fc.v(mech, f"t={t} ({float(t):.6f} s): " + what, key=key)
     # unexpected paragraphs
     for o in res["extra"]:
       if lenient_extra:
@@ -719,7 +727,7 @@ def classify_extra(fc: FileCheck, o: ObsP, t, info, interp, off):
              and difflib.SequenceMatcher(None, _expected_text(fc, (s.index,)), seen, autojunk=False).ratio() >= 0.6]
   if not cands:
     # text after an unused-space code: subtitles whose text field is empty up to the first 8Fh and whose window contains t
-    cands = [s for s in rf.subs if (fc.sub_rows[s.index] is None or (s.inner_filler and not fc.sub_rows[s.index]))
+    cands = [s for s in rf.subs if (fc.sub_rows[s.index] is None or s.inner_filler)
              and window(s) is not None and window(s)[0] <= t < max(window(s)[1], window(s)[0] + EPS)]
     weak = True
   for s in cands:
@@ -752,8 +760,8 @@ def classify_extra(fc: FileCheck, o: ObsP, t, info, interp, off):
     return
   near = [s for s in rf.subs if window(s) is not None and window(s)[0] <= t < max(window(s)[1], window(s)[0] + EPS)
           and any(fl["diacritic_space"] for _, fl in s.readings)]
-  fc.v("unexpected-content" + (":diacritic-before-space" if near else ""),
-       f"t={t}: paragraph {o.text!r} in region {o.rid} corresponds to no subtitle visible at that time")
+  fc.v("unexpected-content", f"t={t}: paragraph {o.text!r} in region {o.rid} corresponds to no subtitle visible at that time",
+       key=tuple(s.index for s in near))
 
 
 def order_check(fc: FileCheck, doc, interp):
